@@ -200,9 +200,10 @@ def modelledStores : List String :=
 
 /-- the fields of `WeightCompressionConfig`, in order: `[lit npu_block_type, lit ofm_block_depth,
 lit hash(str(depth_offsets)), lit dilation, <weight_value_id>, lit ifm_bitdepth]` is the key of `Store.weights`
-(`ifm_bitdepth` since 8757943) -/
+(`ifm_bitdepth` since 8757943; `flipped` — the operator is a transposed convolution, whose kernel is reversed in H and W
+before it is encoded — since repair C01-25) -/
 def weightKeyFields : List String :=
-  ["npu_block_type", "ofm_block_depth", "ofm_depth_step", "dilation", "weight_value_id", "ifm_bitdepth"]
+  ["npu_block_type", "ofm_block_depth", "ofm_depth_step", "dilation", "weight_value_id", "ifm_bitdepth", "flipped"]
 
 /-! ## The hypothesis under which a compilation cannot see the history: `cache_key_sufficient`
 
